@@ -168,3 +168,57 @@ Proof.
   induction l as [|y l IH]; cbn [remove1]; [tauto|].
   destruct (y =? a); [intros H; right; exact H|]. intros [->|H]; [left; reflexivity|right; auto].
 Qed.
+
+(** ---- links of an object at a known position of its parent's child list ---- *)
+Section Links.
+Context {V : Type} (t : ObjectTree V) (g : ghost) (HR : R t g).
+
+Lemma sibling_links p l1 c l2 : glive g p -> kids g p = l1 ++ c :: l2 ->
+  exists o, get t c = Some o /\ o_opcode o <> opFreed /\ o_parent o = p /\
+            o_prev o = last l1 InvalidIndex /\ o_next o = hd InvalidIndex l2 /\ o_index o = c.
+Proof.
+  intros Hl Hk. apply (R_live_glive t g HR) in Hl. destruct Hl as (po & Hpo & Hlpo).
+  destruct (R_kids _ _ HR _ _ Hpo Hlpo) as (_ & _ & Hch & _). rewrite Hk in Hch.
+  destruct (chain_mid _ _ _ _ _ Hch) as (o & Ho & Hlo & Hp & Hpv & Hnx).
+  exists o. repeat split; auto. apply (R_index _ _ HR _ _ Ho).
+Qed.
+
+Lemma root_links x : glive g x -> groot g x ->
+  exists o, get t x = Some o /\ o_opcode o <> opFreed /\ o_parent o = InvalidIndex /\ o_next o = InvalidIndex.
+Proof.
+  intros Hl Hr. apply (R_live_glive t g HR) in Hl. destruct Hl as (o & Ho & Hlo).
+  pose proof (proj1 (R_groot t g HR x o Ho Hlo) Hr) as Hp.
+  pose proof (R_up _ _ HR _ _ Ho Hlo) as Hup. rewrite Hp, N.eqb_refl in Hup. destruct Hup as (_ & Hn).
+  exists o. auto.
+Qed.
+
+Lemma live_root_or_child x : glive g x -> groot g x \/ exists p, In x (kids g p).
+Proof.
+  intros Hl. apply (R_live_glive t g HR) in Hl. destruct Hl as (o & Ho & Hlo).
+  destruct (N.eqb_spec (o_parent o) InvalidIndex) as [E|E].
+  - left. apply (R_groot t g HR x o Ho Hlo). exact E.
+  - right. exists (o_parent o). apply (R_parent_live t g HR x o Ho Hlo E).
+Qed.
+
+(** a descendant one level below is a child *)
+Lemma desc_one_level a x ka : desc g a x -> Depth t a ka -> Depth t x (S ka) -> In x (kids g a).
+Proof.
+  intros Hd Ha Hx. destruct Hd as [|p c Hd Hin].
+  - pose proof (Depth_fun _ _ _ Ha _ Hx). lia.
+  - destruct (desc_depth t g HR _ _ Hd _ Ha) as (kp & Hkp & Hle & Heq).
+    pose proof (child_depth t g HR _ _ _ Hin Hkp) as Hc. pose proof (Depth_fun _ _ _ Hx _ Hc) as E.
+    assert (p = a) by (apply Heq; lia). subst p. exact Hin.
+Qed.
+
+(** a sibling of the parent is not an ancestor *)
+Lemma uncle_not_desc gp p u x : In p (kids g gp) -> In u (kids g gp) -> u <> p -> In x (kids g p) -> ~ desc g u x.
+Proof.
+  intros Hp Hu Hne Hx Hd.
+  destruct (R_In_kids t g HR _ _ Hp) as ((gpo & Hgp & Hlgp) & _).
+  destruct (R_acyc _ _ HR _ _ Hgp Hlgp) as (k & Hk).
+  pose proof (child_depth t g HR _ _ _ Hp Hk) as Hdp. pose proof (child_depth t g HR _ _ _ Hu Hk) as Hdu.
+  pose proof (child_depth t g HR _ _ _ Hx Hdp) as Hdx.
+  pose proof (desc_one_level u x (S k) Hd Hdu Hdx) as Hin.
+  apply Hne. eapply (R_parent_unique t g HR); eauto.
+Qed.
+End Links.
